@@ -1,9 +1,13 @@
 //! tcss-harness: drives the real taskchampion-sync-server code with behaviours generated from
 //! the TLA+ specification (and with seeded random ones) and records ndjson traces that TLC judges.
+#![allow(dead_code)]
 mod base;
+mod conc;
 mod drivers;
+mod lock;
 mod seq;
 mod shimapi;
+mod urg;
 
 use serde_json::{json, Value};
 use std::io::Write;
@@ -27,6 +31,14 @@ pub fn unhex(s: &str) -> Vec<u8> {
         i += 2;
     }
     v
+}
+
+pub fn hex(b: &[u8]) -> String {
+    let mut s = String::with_capacity(b.len() * 2);
+    for x in b {
+        s.push_str(&format!("{:02x}", x));
+    }
+    s
 }
 
 fn cmd_seq(plan_path: &str, out_prefix: &str) -> anyhow::Result<i32> {
@@ -60,7 +72,12 @@ fn cmd_seq(plan_path: &str, out_prefix: &str) -> anyhow::Result<i32> {
                 if i >= jobs.len() {
                     break;
                 }
-                match seq::run_job(&jobs[i], &scratch, &mut w) {
+                let res = match jobs[i]["engine"].as_str() {
+                    Some("variants") => lock::run_variants(&jobs[i], &scratch, &mut w),
+                    Some("ni") => lock::run_ni(&jobs[i], &scratch, &mut w),
+                    _ => seq::run_job(&jobs[i], &scratch, &mut w),
+                };
+                match res {
                     Ok(s) => summaries.lock().unwrap().push(s),
                     Err(e) => errors.lock().unwrap().push(format!("job {}: {e:#}", jobs[i]["id"])),
                 }
@@ -82,6 +99,8 @@ fn main() {
     let args: Vec<String> = std::env::args().collect();
     let code = match args.get(1).map(|s| s.as_str()) {
         Some("seq") if args.len() >= 4 => cmd_seq(&args[2], &args[3]),
+        Some("conc") if args.len() >= 4 => conc::run(&args[2], &args[3]),
+        Some("urg") if args.len() >= 4 => urg::run(&args[2], &args[3]),
         Some("shim") => {
             println!("{}", json!({"shim": shimapi::present()}));
             Ok(0)
